@@ -1,5 +1,6 @@
 import Pamqp.Spec.Defs
 import Pamqp.Model.Api
+import Pamqp.Proofs.Ladder
 /-!
 # C11 — table integers use the smallest fitting type; legacy mode restricts types
 -/
@@ -24,17 +25,17 @@ def firstFit : List (Int × Int × UInt8 × Nat) → Int → R Bytes
     if lo ≤ n ∧ n ≤ hi then .ok (tag :: beN k (n % (256 ^ k : Nat)).toNat) else firstFit rest n
 
 theorem C11_first_fit (n : Int) : Encode.tableInteger false n = firstFit ladder n := by
-  sorry
+  rw [Ladder.tableInteger_full]; rfl
 
 theorem C11_legacy (n : Int) : Encode.tableInteger true n = firstFit legacyLadder n := by
-  sorry
+  rw [Ladder.tableInteger_legacy]; rfl
 
 /-- same set of accepted integers in both modes: exactly [-2^63, 2^63-1]; outside it TypeError -/
 theorem C11_domain (legacy : Bool) (n : Int) :
     (-9223372036854775808 ≤ n ∧ n ≤ 9223372036854775807 → ∃ bs, Encode.tableInteger legacy n = .ok bs) ∧
     (¬ (-9223372036854775808 ≤ n ∧ n ≤ 9223372036854775807) →
       Encode.tableInteger legacy n = .error .typeError) := by
-  sorry
+  exact Ladder.tableInteger_domain legacy n
 
 /-- the fixed-width integer encoders refuse out-of-range arguments with TypeError -/
 theorem C11_fixed_width_guards (n : Int) :
@@ -44,7 +45,7 @@ theorem C11_fixed_width_guards (n : Int) :
     (¬ (0 ≤ n ∧ n ≤ 4294967295) → Encode.longUint (.int n) = .error .typeError) ∧
     (¬ (-9223372036854775808 ≤ n ∧ n ≤ 9223372036854775807) →
       Encode.longLongInt (.int n) = .error .typeError) := by
-  sorry
+  exact Ladder.fixed_width_guards n
 
 /-- in-range arguments are packed, never refused -/
 theorem C11_fixed_width_accept (n : Int) :
@@ -54,7 +55,7 @@ theorem C11_fixed_width_accept (n : Int) :
     (0 ≤ n ∧ n ≤ 4294967295 → ∃ bs, Encode.longUint (.int n) = .ok bs ∧ bs.length = 4) ∧
     (-9223372036854775808 ≤ n ∧ n ≤ 9223372036854775807 →
       ∃ bs, Encode.longLongInt (.int n) = .ok bs ∧ bs.length = 8) := by
-  sorry
+  exact Ladder.fixed_width_accept n
 
 /-- integers at every nesting position go through the same chain: the value encoder applied to an
 int IS the ladder of the current mode, and containers recurse with the same mode -/
@@ -72,6 +73,6 @@ def flagAfter : Bool → List Api.Op → Bool
 theorem C11_toggle (cat : Cat) (s : Api.State) (ops : List Api.Op) (n : Int) :
     (Api.run cat s (ops ++ [.encodeValue (.int n)])).getLast? =
       some (.bytes (Encode.tableInteger (flagAfter s.legacy ops) n)) := by
-  sorry
+  exact Ladder.run_toggle cat flagAfter (fun _ => rfl) (fun b op ops => by cases op <;> rfl) s ops n
 
 end Pamqp.Props
